@@ -79,6 +79,8 @@ pub fn gen(r: &mut Rng) -> Value {
         // searched for values that are themselves command names
         "array_contains ${sp} pwd", "array_contains ${sp} array", "array_contains ${sp} zz", "array_contains ${sp} \"a b\"", "array_join ${sp} ,", "array_is_empty ${sp}",
         "map_contains_value ${mp} pwd", "map_contains_value ${mp} =",
+        // arguments that name the called command's own working variables
+        "unset vb scope::unset::arguments", "unset scope::unset::arguments", "unset scope::unset::name vb", "is_empty scope::is_empty::arguments",
     ];
     let n = 1 + r.below(4);
     let seq: Vec<String> = (0..n).map(|_| r.pick(&calls).to_string()).collect();
@@ -203,6 +205,9 @@ fn run_inner(input: &Value) -> Option<Value> {
         // documented effects: `unset va` removes va
         if call == "unset va" {
             expect.remove("va");
+        }
+        if call.starts_with("unset ") && call.contains(" vb") || call == "unset vb scope::unset::arguments" {
+            expect.remove("vb");
         }
         if after != expect {
             return Some(json!({"step": i, "script": script, "what": "caller variables changed (beyond the output variable and documented effects)", "before": expect, "after": after}));
